@@ -704,7 +704,7 @@ def run_thorough(chk) -> None:
 MANIFEST_ENTRY = {
     "text": "Whole-package iteration-order taint analysis on the current source: every place where a set becomes a sequence is found and the element type of the set "
     "is inferred; only hash-stable element types are accepted, unknown types fail closed. Hash-seed dependence needs two interpreters to observe; the analysis "
-    "instead rules out its only source in this code base (iteration of str/object sets) on every path. Also: no id()/hash()/random/time values.",
+    "instead rules out its only source in this code base (iteration of str/object sets) on every path. Also: no id()/hash()/random/time values. Since rounds 3-7 also: the sorted value of the one named exception must reach no output (containment analysis), state of a module or class written in a handler (shared-state), memo keys that name a file not its content, run-dependent names used as data, in-place numpy writes through a borrowed array (package-wide alias analysis), sorted/min/max without a key over a set whose elements have a non-total order, and record classes that reach a JSON serialiser must not grow attributes after construction.",
     "note": "Trusted: determinism of scipy/pulp/pandas/mmcif internals; CPython set iteration being a function of hashes and insertion history. One named exception with a checked side condition (sorted with a non-injective key in the conflict resolution).",
-    "technique": "static analysis: light type inference + iteration-order taint (unordered source -> sequence) over the ast of all modules",
+    "technique": "static analysis: light type inference + iteration-order taint (unordered source -> sequence) over the ast of all modules + containment, alias and process-state analyses (shared state, memo keys, run-dependent values, borrowed arrays, serialised records)",
 }
